@@ -16,6 +16,7 @@ TRUSTED = [
     "inside the thread lock (Tie A). The sync sources are the translation of the async ones (C18)",
     "the controlled thread scheduler (harness/threadsched.py): real OS threads, one running at a time, pre-emptible before every source line of "
     "httpcore/_sync and _synchronization.py, at every lock/event/semaphore operation (cooperative shims) and every network operation",
+    "Sys is tied to the real pool step by step (harness/sysconf.py): after every scheduling step of explored runs the real pool is projected onto Sys's state space and the Lean driver searches Sys.step breadth-first for a model run between consecutive observations (this run)",
 ]
 ASSUMPTIONS = ["Python executes one source line of one thread at a time between the scheduler's pre-emption points (finer-grained pre-emption "
                "inside a line - e.g. inside list.remove - is not explored)",
@@ -34,6 +35,8 @@ DESIGN_REF = "§5 C08"
 def run(ctx, driver):
     rng = ctx.rng
     rec = propbase.Rec(ctx, ID)
+    import sysconf
+    sysconf.run_conformance(ctx, rec, 40, 1500)
     n = 400 if ctx.quick else 12000
     stored = []
     for k in core.load_known():
